@@ -21,6 +21,12 @@ CHECKS = {
     text='Machine-checked proof that the model of haveEquivalentVariables (DFS with a tested-variables list, fuel n+1) decides reachability in the equivalence graph, that hasEquivalentVariable(v,true)/areEquivalentVariables are exactly connectivity, and that the cached AnalyserModel query returns the uncached answer for every query history, order and repetition and for every injective address map (the pair key identifies only a pair with its mirror image).  The superseded 64-bit Cantor key is refuted by a kernel-evaluated collision of four aligned user-space addresses and the wrong answer it yields.  Tie: the real key function on thousands of word pairs, generated graphs with all ordered pairs queried in shuffled order with repetitions against the model and a union-find oracle, and the collision witness replayed on real Variable objects placed at chosen addresses by an arena operator new.',
     note='Trusted: Lean kernel; hx_equiv.cpp (private-member access, arena allocator) and the driver; symmetry/closure of equivalence lists is an assumption discharged by C09; which addresses malloc returns is not modelled (theorem is for all injective address maps); staleness of the cache after model edits is outside the claim.',
     design='4 C18'),
+ 'C08': dict(
+    engine='units',
+    technique='Lean 4 proof over exact rationals: compatibility = equality of base-exponent vectors (equivalence relation), permutation/indirection invariance, factor inverse/chain laws, code scale = specification scale under the exponent-1 hypothesis; standard tables regenerated from utilities.h and checked by kernel decide; differential run on generated unit DAGs',
+    text='Machine-checked proof about the executable model of units.cpp (updateUnitMultiplier, updateUnitsMap, compatible, scalingFactor, equivalent) over exact rationals: compatible holds exactly when both units are defined and have the same exponent of every base dimension, hence is an equivalence relation, is invariant under permutation of unit children and indirection; factor(a,b)·factor(b,a)=1 and factor(a,c)=factor(a,b)·factor(b,c) (as sums of logs), factor undefined (0.0) for incompatible, undefined or null units; equivalent iff compatible with factor 1; the code multiplier equals the specification scale whenever prefixes/multipliers sit on children of exponent 1, with a kernel-checked witness that the hypothesis is needed.  Tie: standard-unit and prefix tables printed by a program including utilities.h and re-checked by decide; generated acyclic unit environments (shuffled insertion order, imported aliases) with all operand pairs compared exactly (multipliers as exact fractions) and an independent exact-fraction reference for compatibility.',
+    note='Trusted: Lean kernel; hx_units.cpp and driver; table extractor.  std::map comparison modelled by pointwise equality of lookup functions; floating-point rounding (areEqual, pow) not modelled - inputs chosen so double arithmetic is exact; importing a user base unit, the validator hint multiplier and the analyser copy of the units arithmetic are not modelled; cyclic units belong to C01/C04.',
+    design='4 C08'),
 }
 
 def manifest():
@@ -49,7 +55,8 @@ def manifest():
                    enable='each check configures /repo into a scratch dir with -DCMAKE_CXX_FLAGS=-DLIBCELLML_VERIF (vlib/common.py: build_lib) and links harness/hx_*.cpp against the static library',
                    baseline_off_cmd='python3 tools/baseline_off.py',
                    source_commits=hooks['source_commits'], add_only=True),
-        engines=[dict(name='equiv', path='harness/hx_equiv.cpp + lean/Cellml/Engine/Equiv.lean', serves_properties=['C18'], kind_free_text='differential: real equivalence queries/cache key vs Lean model; arena placement of objects'),
+        engines=[dict(name='units', path='harness/hx_units.cpp + lean/Cellml/Engine/Units.lean', serves_properties=['C08'], kind_free_text='differential: real Units::compatible/scalingFactor/equivalent/updateUnitMultiplier vs exact-rational Lean model'),
+                 dict(name='equiv', path='harness/hx_equiv.cpp + lean/Cellml/Engine/Equiv.lean', serves_properties=['C18'], kind_free_text='differential: real equivalence queries/cache key vs Lean model; arena placement of objects'),
                  dict(name='logger', path='harness/hx_logger.cpp + lean/Cellml/Engine/Logger.lean', serves_properties=['C15'], kind_free_text='trace replay: hook-traced logger operations of real service calls vs Lean logger model'),
                  dict(name='num', path='harness/hx_num.cpp + lean/Cellml/Engine/Num.lean', serves_properties=['C16'], kind_free_text='differential: real recognisers vs Lean model, exhaustive short strings')],
         checks=checks,
